@@ -4,6 +4,7 @@ package main
 
 import (
 	"encoding/json"
+	"math/rand"
 	"flag"
 	"fmt"
 	"os"
@@ -297,6 +298,69 @@ func checkCmd(args []string) int {
 		groups = append(groups, u.checkG1())
 	}
 
+	// translation cross-validation: a seeded random sample of DISCHARGED ground instances is executed on the real code and
+	// the observed output is judged by the solver against the same postcondition (guards assumption A10: the proof and
+	// the real code must agree on concrete inputs)
+	xval, xdis := 0, 0
+	var xsamples []interface{}
+	{
+		nPer := 24
+		if *tier == "thorough" {
+			nPer = 400
+		}
+		rng := rand.New(rand.NewSource(seed))
+		byPkg := map[string][]*Oblig{}
+		reqs := map[string][]map[string]interface{}{}
+		obsv := map[*Oblig]string{}
+		rqOf := map[*Oblig]map[string]interface{}{}
+		for _, g := range groups {
+			if len(g) == 0 || g[0].Template == nil || g[0].Template.Post.S == "" {
+				continue
+			}
+			if _, r, _ := buildRequest(g[0]); r == nil {
+				continue
+			}
+			if op, _ := func() (string, bool) { _, r, _ := buildRequest(g[0]); s, ok := r["op"].(string); return s, ok }(); op == "find" && *tier != "thorough" {
+				continue // intermediate-value searches enumerate up to millions of vectors: thorough tier only
+			}
+			for k := 0; k < nPer && k < len(g); k++ {
+				o := g[rng.Intn(len(g))]
+				if !o.ok() {
+					continue
+				}
+				p, r, ob := buildRequest(o)
+				if r == nil {
+					continue
+				}
+				byPkg[p] = append(byPkg[p], o)
+				reqs[p] = append(reqs[p], r)
+				obsv[o] = ob
+				rqOf[o] = r
+			}
+		}
+		for p, obs := range byPkg {
+			ans, _, err := runHarness(*repo, p, reqs[p])
+			if err != nil {
+				u.problem("translation cross-validation: harness for %s failed: %v", p, err)
+				continue
+			}
+			for j, o := range obs {
+				if !ans[j].Ok {
+					continue // instance not attainable by a vector
+				}
+				_, bad, desc := finishReplay(d, o, p, rqOf[o], obsv[o], ans[j])
+				xval++
+				if len(xsamples) < 3 {
+					xsamples = append(xsamples, map[string]interface{}{"instance": o.Instance, "real_code": desc, "agrees_with_proof": !bad})
+				}
+				if bad {
+					xdis++
+					u.problem("translation cross-validation: instance [%s] of %s is discharged but the real code's output violates the postcondition (%s)", o.Instance, o.Name, desc)
+				}
+			}
+		}
+	}
+
 	// verdict
 	known, fixedLines := loadKnownFindings(filepath.Join(verifRoot, "known-findings.txt"))
 	total, discharged := 0, 0
@@ -477,6 +541,9 @@ func checkCmd(args []string) int {
 			"obligations":            total - knownCount,
 			"discharged":             discharged,
 			"obligations_generated":  total,
+			"traces_validated_against_impl": xval,
+			"translation_disagreements": xdis,
+			"translation_samples":    xsamples,
 			"refuted_known_findings": knownCount,
 			"undecided":              undecided,
 			"checker_cmd":            fmt.Sprintf("bin/verif check %s --tier %s   (z3-new -smt2 on generated SMT-LIB; FP bit-precise)", id, *tier),
